@@ -21,6 +21,8 @@ pub(crate) mod c10;
 pub(crate) mod c13;
 #[path = "/verif/harness/d/c07.rs"]
 pub(crate) mod c07;
+#[path = "/verif/harness/d/c16.rs"]
+pub(crate) mod c16;
 
 use vcore::{BatchPlan, Check};
 
@@ -70,6 +72,7 @@ pub(crate) fn verif_main(args: &[String]) -> i32 {
     let c10 = c10::GrHelper;
     let c13 = c13::RtrClient;
     let c07 = c07::FsmWire;
-    let checks: Vec<&dyn Check> = vec![&c08, &c01, &c10, &c13, &c07];
+    let c16 = c16::Admission;
+    let checks: Vec<&dyn Check> = vec![&c08, &c01, &c10, &c13, &c07, &c16];
     vcore::main_with(&checks, &plan, args)
 }
